@@ -290,7 +290,8 @@ class DocGen:
         if isinstance(v, str):
             if self.multiline and not inline and r.random() < 0.3:
                 self.used_multiline = True
-                body = r.choice(["\nline one\n[not.a.header]\nlast", "\n[[x]]\n", "a\nb = 1\n"]) + v.replace("\\", "").replace('"', "")
+                body = r.choice(["\nline one\n[not.a.header]\nlast", "\n[[x]]\n", "a\nb = 1\n", "\n# a heading\ntext\n", "#!/bin/sh\n#c = 2\n  # indented\n",
+                                 "x\n#y = 1\nz"]) + v.replace("\\", "").replace('"', "")
                 return '"""' + body + '"""'
             return self.rstr(v)
         if isinstance(v, dtm.datetime):
